@@ -86,7 +86,7 @@ SendStep(P, e, Q) ==
           \* C18: exactly the amount, or the amount plus the fee the mint will charge for those very proofs
           (IF e.r.value = e.a.amt + (IF e.a.fees THEN e.r.tokfee ELSE 0) THEN {}
            ELSE {<<"C18", IF e.a.fees THEN "send-with-fees-not-exact" ELSE "send-not-exact">>})
-          \cup (IF e.r.distinct /\ Distinct(tok) THEN {} ELSE {<<"C18", "sent-proofs-not-distinct">>})
+          \cup (IF e.r.distinct /\ Distinct(tok) THEN {} ELSE {<<"C18", "sent-proofs-not-distinct">>, <<"C17", "proof-offered-twice-in-one-token">>})
           \cup (IF \A p \in SeqSet(tok) : p.mstate = "unspent" THEN {} ELSE {<<"C18", "sent-proof-not-unspent">>})
           \cup (IF Ids(tok) \cap Ids(Q.wallets[w].proofs) = {} THEN {} ELSE {<<"C18", "sent-proof-still-spendable">>})
           \cup (IF Q.wallets[w].bal <= P.wallets[w].bal - e.r.value THEN {} ELSE {<<"C18", "balance-not-reduced-by-sent-value">>})
@@ -121,9 +121,12 @@ SeedOutputs(P, w) ==
               : t \in {t \in DOMAIN P.tokens : P.tokens[t].from = w}}
 RestoreStep(P, e, Q) ==
   IF e.r.ok
-  THEN LET want == SumOver(SeedOutputs(P, e.a.w), LAMBDA p : p.amt)
+  THEN LET \* fault-free: what the wallet and its outstanding tokens held; after a wallet crash the wallet's own records are
+           \* no guide, and the mint-side truth is used: the value of the seed's signed outputs not spent at their mint
+           want == IF e.a.aftercrash THEN e.a.seedlive ELSE SumOver(SeedOutputs(P, e.a.w), LAMBDA p : p.amt)
            got == Q.wallets[e.a.w].bal + Q.wallets[e.a.w].pend
-       IN (IF got = want THEN {} ELSE {<<"C19", IF got < want THEN "restore-incomplete" ELSE "restore-exceeds-seed-outputs">>})
+           sfx == IF e.a.aftercrash THEN "-after-crash" ELSE ""
+       IN (IF got = want THEN {} ELSE {<<"C19", (IF got < want THEN "restore-incomplete" ELSE "restore-exceeds-seed-outputs") \o sfx>>})
   ELSE {<<"C19", "restore-failed">>}
 
 Step(P, e, Q) ==
